@@ -9,6 +9,8 @@ pub const RENEW_NEXT: u8 = 1; // gen+1, keeps renewing
 pub const RENEW_SAME: u8 = 2; // misbehaving-but-legal: returns itself
 pub const RENEW_LOSE: u8 = 3; // misbehaving-but-legal: returns an identity that loses the conflict
 pub const RENEW_ONCE: u8 = 4; // gen+1, the renewed identity cannot renew again
+pub const RENEW_WRAP: u8 = 5; // (gen+1) % 4: wins three times, then yields a losing identity and starts over
+pub const RENEW_MODES: u8 = 6;
 
 #[derive(Clone, Copy, Serialize, Deserialize)]
 pub struct Id {
@@ -70,6 +72,7 @@ impl Identity for Id {
         match self.renew {
             RENEW_NEXT => self.gen.checked_add(1).map(|g| Id { addr: self.addr, gen: g, renew: RENEW_NEXT }),
             RENEW_ONCE => self.gen.checked_add(1).map(|g| Id { addr: self.addr, gen: g, renew: RENEW_NONE }),
+            RENEW_WRAP => Some(Id { addr: self.addr, gen: (self.gen + 1) % 4, renew: RENEW_WRAP }),
             RENEW_SAME => Some(*self),
             RENEW_LOSE => Some(Id { addr: self.addr, gen: self.gen.saturating_sub(1), renew: RENEW_LOSE }),
             _ => None,
